@@ -325,6 +325,8 @@ func driveEnc(args map[string]string) error {
 								rec.Outcomes = append(rec.Outcomes, 0)
 							case 1:
 								rec.Outcomes = append(rec.Outcomes, r.IntN(50))
+							case 2:
+								rec.Outcomes = append(rec.Outcomes, 1000+r.IntN(50)) // short, without an error
 							default:
 								rec.Outcomes = append(rec.Outcomes, -1)
 							}
